@@ -182,6 +182,49 @@ pub fn check_trait<S: Alg>(c: &Case, ctx: &mut CaseCtx, always_hiding: bool) -> 
         })?;
     }
 
+    // ---- hiding bounds at and just beyond what the key's hiding generators cover ------------------------
+    // (the generator above only makes admissible requests). Whatever the library does with the request -
+    // refuse it or serve it - a returned commitment must still be the naive commitment plus the blinding
+    // term of the returned state over the key's hiding generators, with at least h+2 coefficients.
+    if S::HAS_HIDING && !always_hiding {
+        for (i, m) in sess.meta.iter().enumerate().take(2) {
+            let mut hs: Vec<usize> = vec![keys.info.hiding, keys.info.hiding + 1];
+            if let (true, Some(d)) = (S::HIDING_LE_BOUND, m.bound) {
+                hs.extend([d, d + 1]);
+            }
+            hs.sort();
+            hs.dedup();
+            for h in hs.into_iter().filter(|h| *h >= 1) {
+                let lp = ark_poly_commit::LabeledPolynomial::new(sess.polys[i].label().clone(), sess.polys[i].polynomial().clone(), m.bound, Some(h));
+                let mut r = rng(s1 ^ 0xb0 ^ h as u64);
+                let Out::Ok((cm, st)) = guard(|| S::PC::commit(&keys.ck, [&lp], Some(&mut r))) else {
+                    ctx.label("boundary_hiding_bound_refused");
+                    continue;
+                };
+                ctx.label("boundary_hiding_bound_served");
+                let parts = S::comm_parts(cm[0].commitment());
+                let (Ok(naive), blind) = (S::naive_parts(keys, sess.polys[i].polynomial(), m.bound), S::blinding(keys, &st[0], m.bound)) else { continue };
+                let blind = match blind {
+                    Ok(b) => b,
+                    Err(e) => {
+                        return ctx.fail(sig(P, S::NAME, "commit", "blinding_beyond_the_hiding_generators"), format!("polynomial {i}, bound {:?}, hiding {h}: commit returned Ok but the returned state cannot be expressed over the key's hiding generators: {e}", m.bound));
+                    }
+                };
+                for (k, part) in parts.iter().enumerate() {
+                    let Some(b) = blind.get(k).and_then(|x| x.as_ref()) else {
+                        return ctx.fail(sig(P, S::NAME, "commit", "hiding_requested_but_not_blinded"), format!("polynomial {i}, hiding {h}: part {k} carries no randomness"));
+                    };
+                    ctx.check(*part - naive[k] == b.term, sig(P, S::NAME, "commit", "blinding_identity"), || {
+                        format!("polynomial {i}, bound {:?}, hiding {h} (key hiding {}): commitment - naive_commit != sum r_j * hiding generators", m.bound, keys.info.hiding)
+                    })?;
+                    ctx.check(b.ncoeffs >= S::expected_coeffs(keys, h), sig(P, S::NAME, "commit", "too_few_random_coefficients"), || {
+                        format!("polynomial {i} hiding {h}: {} random coefficients", b.ncoeffs)
+                    })?;
+                }
+            }
+        }
+    }
+
     // ---- opening proofs -------------------------------------------------------------------------
     let g = &sess.groups[0];
     let order = g.polys.clone();
@@ -329,7 +372,7 @@ pub fn spec() -> PropertySpec {
     units.push(PropUnit::new("C07:kzg10:blinding", 300, 3000, 2, |_| kzg_case().boxed(), check_kzg));
     PropertySpec {
         id: "C07",
-        rule: "C01 scenarios with most polynomials hiding (h in 1..=supported), for KZG10, Marlin, Sonic, PST13, IPA and Hyrax. Oracles over public data: commitment - naive key-defined commitment == sum r_j * hiding generator_j with r the returned state (per part: plain / degree-bound / per Hyrax row; Sonic's shifted gamma window; PST13's per-variable gamma powers); the state holds at least h+2 (PST13: n(h+1)+1; IPA/Hyrax: one scalar per part/row) non-zero pairwise distinct coefficients; plain and degree-bound parts use different randomness; equal commit seeds reproduce commitments and states, different seeds change both for hiding polynomials; 8 repeated commitments from one continuing RNG are pairwise distinct; hiding without an RNG is refused; non-hiding commitments equal the naive sum, carry no randomness and an empty() state; proof.random_v equals the challenge-weighted evaluation of the blinding polynomials (opening challenges replayed by the harness) and is None when nothing hides; IPA hiding_comm/rand present iff some opened polynomial hides and fresh per open RNG; Hyrax openings fresh per open RNG. Non-trivial: hiding together with a degree bound, or h >= 2, or several polynomials with hiding.",
+        rule: "C01 scenarios with most polynomials hiding (h in 1..=supported), for KZG10, Marlin, Sonic, PST13, IPA and Hyrax. Oracles over public data: commitment - naive key-defined commitment == sum r_j * hiding generator_j with r the returned state (per part: plain / degree-bound / per Hyrax row; Sonic's shifted gamma window; PST13's per-variable gamma powers); the state holds at least h+2 (PST13: n(h+1)+1; IPA/Hyrax: one scalar per part/row) non-zero pairwise distinct coefficients; plain and degree-bound parts use different randomness; equal commit seeds reproduce commitments and states, different seeds change both for hiding polynomials; 8 repeated commitments from one continuing RNG are pairwise distinct; hiding without an RNG is refused; hiding bounds at and one beyond the key's hiding generators (and, for Sonic, at and one beyond the degree bound, whose shifted hiding window is shorter) are either refused or served with the same identity and coefficient count; non-hiding commitments equal the naive sum, carry no randomness and an empty() state; proof.random_v equals the challenge-weighted evaluation of the blinding polynomials (opening challenges replayed by the harness) and is None when nothing hides; IPA hiding_comm/rand present iff some opened polynomial hides and fresh per open RNG; Hyrax openings fresh per open RNG. Non-trivial: hiding together with a degree bound, or h >= 2, or several polynomials with hiding.",
         assumptions: vec![
             "'independent' randomness is checked structurally (count, non-zero, distinct, seed-sensitivity), not statistically",
             "random field elements collide or vanish with probability <= 2^-200",
